@@ -32,6 +32,9 @@ type vEmp struct {
 	Roles []string
 	Boss  *string
 	Title *string // optional; when given it must be non-empty (SetRequiredString)
+	// optional: when non-nil the entity's links to depts are managed through
+	// entity persistence (PersistContext.SetLinkedIds -> LinkCollection.SetLinks)
+	DeptIds *[]string
 }
 
 func (e *vEmp) GetId() string         { return e.Id }
@@ -60,6 +63,9 @@ func (vEmpStrategy) PersistEntity(e *vEmp, ctx *PersistContext) {
 	ctx.SetStringP(vFNick, e.Nick)
 	ctx.SetStringList(vFRoles, e.Roles)
 	ctx.SetStringP(vFBoss, e.Boss)
+	if e.DeptIds != nil {
+		ctx.SetLinkedIds(vFDepts, *e.DeptIds)
+	}
 }
 
 type vEmpStore struct {
